@@ -265,6 +265,8 @@ def run_P(ck):
     ck.assume('the registry RpcError.__handlers__ is an arbitrary map (uninterpreted predicate + handler function)')
     ck.trust('PyVC encoding of the Python subset (DESIGN.md 3.2)')
     ck.trust('z3 5.1 sequence theory')
+    from vlib.pyvc.crosscheck import crosscheck
+    crosscheck(ck, N._gen_error_variants, ['a', 'a.b', 'proto.x.c.d', 'proto.x.c.d.e.f', ''])
     jobs = [('variants', h_variants())] + [(f'from_errors[{k}]', h_from_errors(k)) for k in (0, 1, 2, 3, 'any')]
     for name, h in jobs:
         eng = Engine()
